@@ -59,6 +59,12 @@ def gen_decl_scenario(seed, tier="quick", hostile=None, faults=()):
             else:
                 op = ["amend", {"inp": [rng.choice(files)]}]
             ops.append(["ignore_errors", [op]])
+            if rng.random() < 0.08:
+                # a step from A to B, then one request that makes the declaring plan a consumer
+                # of B and the producer of A: the cycle only closes on the output side
+                a, b = rng.sample(NEW_PATHS, 2)
+                ops.append(["ignore_errors", [["step", f"CY{k}_{j}", {"inp": [a], "out": [b], "need": "OPTIONAL"}]]])
+                ops.append(["ignore_errors", [["amend", {"inp": [b], "out": [a]}]]])
             if rng.random() < 0.25:
                 ops.append(["ignore_errors", [copy.deepcopy(op)]])  # repeat
             if rng.random() < 0.5:
